@@ -286,7 +286,15 @@ def run_cases(modname, tier, seed, jobs):
                 p.join()
                 del running[i]
             elif not p.is_alive():
-                results[i] = ("error", dict(case=cases[i].name, error=f"worker exited {p.exitcode}", tb=""))
+                # the worker may have sent its result between the poll above and its exit: look again before calling it lost
+                if pr.poll(0.5):
+                    try:
+                        results[i] = pr.recv()
+                    except EOFError:
+                        results[i] = ("error", dict(case=cases[i].name, error="worker died", tb=""))
+                else:
+                    results[i] = ("error", dict(case=cases[i].name, error=f"worker exited {p.exitcode}", tb=""))
+                p.join()
                 del running[i]
             elif time.time() - t0 > cases[i].timeout:
                 p.kill()
